@@ -122,7 +122,9 @@ func (srv *Session) consumeSingleCommand(ctx context.Context, reader *buffer.Rea
 	err = srv.handleCommand(ctx, conn, t, reader, writer)
 	srv.wg.Done()
 	if errors.Is(err, io.EOF) {
-		return nil
+		// NOTE: the client terminated the connection, commands which have
+		// been pipelined behind the terminate message must not be consumed.
+		return io.EOF
 	}
 
 	return err
